@@ -1,8 +1,11 @@
 #!/bin/bash
+# usage: seed_recheck.sh [name ...]
 # Re-runs every check against every kept seeded break (seeded/*/patch.diff) and refreshes the
 # `checks_reporting_it` / `checks_erroring` fields of its meta.json.
 HERE="$(cd "$(dirname "$0")/.." && pwd)"
-for d in "$HERE"/seeded/*/; do
+DIRS="$HERE/seeded/*/"
+if [ $# -gt 0 ]; then DIRS=""; for n in "$@"; do DIRS="$DIRS $HERE/seeded/$n/"; done; fi
+for d in $DIRS; do
   n="$(basename "$d")"
   CHK="$("$HERE/tools/mutant.sh" "$d/patch.diff" ALL 2>&1)"
   DET="$(echo "$CHK" | grep -E '^C[0-9]+ rc=1' | cut -d' ' -f1 | tr '\n' ' ')"
